@@ -194,6 +194,10 @@ class FlowGen(object):
             b = ("bin", "+", ("var", r.choice(VARS)), n(0)) if not neg else b
         head = ("for", v, a, b, step)
         form = r.random()
+        self.for_changes_limit = False
+        if b[0] == "bin" and r.random() < 0.5:
+            # the limit is a variable that the body changes: bounds are evaluated once in both languages
+            self.for_changes_limit = b[2][1]
         if form < 0.35:
             # whole loop on one line
             body = [self.mark(v)]
@@ -208,6 +212,9 @@ class FlowGen(object):
                 self.line([head] + body + [("next", [v] if r.random() < 0.5 else [])])
         else:
             self.line([head, self.mark(v)] if r.random() < 0.6 else [head])
+            if self.for_changes_limit:
+                lv = self.for_changes_limit
+                self.line([("let", ("var", lv), ("bin", "+", ("var", lv), n(1)), False), self.mark(lv)])
             for _ in range(r.randint(1, 2)):
                 self.segment(depth + 1)
             self.line([self.mark(v), ("next", [v] if r.random() < 0.6 else [])] if r.random() < 0.5 else [("next", [v] if r.random() < 0.6 else [])])
@@ -372,7 +379,7 @@ VALUATIONS = [{"A": 0, "B": 1, "C": 2}, {"A": 1, "B": 2, "C": 3}, {"A": 2, "B": 
 
 
 def cases(tier, seed):
-    N = 1200 if tier == "quick" else 40000
+    N = 1200 if tier == "quick" else 80000
     for i in range(N):
         yield {"seed": seed * 9973 + i // 2, "nseg": 2 + (i // 2) % 5, "valuation": VALUATIONS[i % len(VALUATIONS)],
                "zero_trip": i % 25 == 0, "sample": i % 400 == 0}
